@@ -196,6 +196,8 @@ def run_property(spec, tier, seed, replay=None, jobs=16):
     for r, o in failed_obls:
         viol_count += 1
         witness = b_by_fn.get(r["function"].split(".")[-1].split(":")[-1])
+        if witness is None and b_by_fn:
+            witness = dict(sorted(b_by_fn.items())[0][1], note="failing input of the same run, found by the bounded search on another function of this property")
         payload = {"property": pid, "kind": "deductive-obligation-failed", "function": r["function"],
                    "failing_input_from_bounded_search": witness,
                    "obligation": o["name"], "clause": o["clause"], "where": o["where"],
